@@ -150,6 +150,10 @@ class ParamMutation:
                     if fn.attr == "compose":
                         ip = next((k.value for k in c.keywords if k.arg == "inplace"), None)
                         cd = cond_of(ip)
+                        if cd is None:
+                            # compose(..., inplace=True) in the positive branch of `if <flag parameter>:` is as conditional as
+                            # compose(..., inplace=<flag parameter>)
+                            cd = _flag_guard(f, c)
                         if cd is not False and recv:
                             record(recv, c, "compose(inplace=...)", cond=cd)
                         continue
@@ -440,6 +444,40 @@ def protected_params(f):
         if any(k in ann for k in PROTECTED_ANN) or ann == "" and arg.arg in ("other", "value", "data", "circuit", "target", "graph", "stabilizer", "A", "R", "S", "m1", "m2", "c", "counts", "qubits", "measured_qubits", "result", "circuits"):
             out.append(arg.arg)
     return out
+
+
+def _flag_guard(f, call):
+    """name of a boolean parameter whose truth guards `call` (the call sits in the body of `if <param>:`), else None"""
+    memo = getattr(f, "_sa_flag_guards", None)
+    if memo is None:
+        memo = {}
+
+        def rec(stmts, guard):
+            for st in stmts:
+                for c in ast.walk(st) if not isinstance(st, (ast.If, ast.For, ast.While, ast.With, ast.Try)) else []:
+                    if isinstance(c, ast.Call):
+                        memo[id(c)] = guard
+                if isinstance(st, ast.If):
+                    for c in ast.walk(st.test):
+                        if isinstance(c, ast.Call):
+                            memo[id(c)] = guard
+                    g2 = st.test.id if isinstance(st.test, ast.Name) and st.test.id in f.params else guard
+                    rec(st.body, g2)
+                    rec(st.orelse, guard)
+                elif isinstance(st, (ast.For, ast.While)):
+                    rec(st.body, guard)
+                    rec(st.orelse, guard)
+                elif isinstance(st, ast.With):
+                    rec(st.body, guard)
+                elif isinstance(st, ast.Try):
+                    rec(st.body, guard)
+                    for h in st.handlers:
+                        rec(h.body, guard)
+                    rec(st.orelse, guard)
+                    rec(st.finalbody, guard)
+        rec(f.node.body, None)
+        f._sa_flag_guards = memo
+    return memo.get(id(call))
 
 
 EXEMPT = {
